@@ -25,7 +25,7 @@ def monitor(rep, tier):
         rep.add(Result("C17.backend-arguments", BOUNDED_OK, klass="B", backend="recording-backend", function="mako.codegen:_GenerateRenderMethod.write_cache_decorator",
                        bound="one template with page-level and per-section cache_* attributes, two recording backends", evaluations=n0, time_s=time.time() - t0,
                        detail="Template cache_args < <%page cache_*> < the section's own; timeout an int; context passed exactly on request"))
-    maxlen, nrandom = (2, 40) if tier == "quick" else (3, 400)
+    maxlen, nrandom = (2, 40) if tier == "quick" else (3, 3000)
     seqs = M.sequences(maxlen, nrandom, rep.seed)
     for impl in ("c17ref", "beaker", "beaker-file", "dogpile"):
         t1 = time.time()
